@@ -31,7 +31,7 @@ where
     let beh = Beh {
         id: format!("sz-{}-{}-{}-{}-{}-{}", A::NAME, deg, nv, k, bound, hid), prop: "C19".into(), scheme: A::NAME.into(),
         max_degree: if fam == "ml" { 1 } else { deg }, num_vars: if fam == "uni" { -1 } else { nv },
-        supported: if fam == "ml" { 1 } else { deg }, hiding: 1, bounds: vec![deg], nobounds: !bound, polys: vec![], rng: true, wf: true, note: String::new(),
+        supported: if fam == "ml" { 1 } else { deg }, hiding: 1, bounds: vec![deg], nobounds: !bound, polys: vec![], rng: true, wf: true, note: String::new(), vsupported: -1,
         ops: vec![], adv: vec![], expect: Default::default(), ser: vec![], tag: String::new(),
     };
     let fail = |w: String| json!({"ok": false, "why": w});
